@@ -620,10 +620,12 @@ class FunctionParser(BaseParser):
                 field = self.positional_fields.get(i)
 
                 if field:
+                    # this position is filled here (by the argument or, for a no-input parameter, by its default):
+                    # the keyword pass must not fill it again
+                    parsed_keys.append(field.attname)
                     if field.is_no_input(arg, options=context.options):
                         arg = field.get_default(options=context.options)
                     else:
-                        parsed_keys.append(field.attname)
                         arg = field.parse_value(arg, context=context)
                     if unprovided(arg):
                         # on_error=excluded, or error collected
